@@ -1,4 +1,4 @@
 SPECIFICATION TSpec
-CONSTANTS MaxLen = 99 IndexRule = "stable" LabelRule = "code"
+CONSTANTS MaxLen = 99 IndexRule = "stable" LabelRule = "code" AttrProp = "C10"
 POSTCONDITION Done
 CHECK_DEADLOCK FALSE
